@@ -31,8 +31,8 @@ CONSTANTS Names,        \* vessel names
           DiluteCases,  \* sequence of [n, solute, nu, du, solvent]
           DiluteYs,     \* solvent amounts whose resulting concentration is requested (inverse construction)
           NewCases,     \* sequence of [n, cap, entries]
-          SolCases,     \* sequence of create_solution cases, see CreateSolution
-          FromCases,    \* sequence of create_solution_from cases, see CreateSolutionFrom
+          SolCases,     \* set of create_solution cases, see CreateSolution
+          FromCases,    \* set of create_solution_from cases, see CreateSolutionFrom
           Shard, NShards, \* this TLC process expands, from an initial state, only the cases whose index is Shard mod NShards
           MaxDepth,
           DenBound
@@ -286,7 +286,11 @@ Meets(x, c, inp) ==
 SolClass(c) ==
   LET x == SolTarget(c)
       nameable == \A i \in DOMAIN c.solutes : ~IsZero(PerUnit(c.solutes[i], c.nu[i])) /\ ~IsZero(PerUnit(c.solutes[i], c.qu[i]))
-  IN  IF ~nameable THEN "ill_posed"
+      inp == SolInputs(c)
+      positive == /\ (c.given \in {"cq", "ct"} => \A i \in DOMAIN c.solutes : IsPos(inp.conc[i]) /\ IsPos(Measure(x, c.du[i])))
+                  /\ (c.given \in {"cq", "qt"} => \A i \in DOMAIN c.solutes : IsPos(inp.qty[i]))
+                  /\ (c.given \in {"ct", "qt"} => IsPos(inp.total))
+  IN  IF ~nameable \/ ~positive THEN "ill_posed"      \* every stated number is positive, as a user would write it
       ELSE IF ~IsPos(c.xsolv) \/ \E i \in DOMAIN c.xs : ~IsPos(c.xs[i]) THEN "nonpositive"
       ELSE IF SolvIsVessel(c) /\ Lt(Moles(ves[c.solvent].w[1].c), c.xsolv) THEN "overdraw"
       ELSE IF SolvIsVessel(c) /\ Moles(ves[c.solvent].w[1].c) = c.xsolv THEN "boundary"
@@ -308,7 +312,9 @@ CreateSolution(c) ==
                   xs |-> c.xs, xsolv |-> c.xsolv,
                   res |-> IF ok THEN "ok" ELSE "ValueError", cls |-> cls]
 
-SolAny == \E i \in DOMAIN SolCases : InShard(i) /\ LET c == SolCases[i] IN (c.solvent \in Names => IsC(c.solvent)) /\ CreateSolution(c)
+\* (SolCases and FromCases are SETS; they are sharded by a number derived from the case)
+RatNum(x) == x[1] + x[2]
+SolAny == \E c \in SolCases : InShard(Len(c.solutes) + RatNum(c.xs[1]) + RatNum(c.xsolv) + Len(c.nu[1]) + 2 * Len(c.du[1]) + 3 * Len(c.tu)) /\ (c.solvent \in Names => IsC(c.solvent)) /\ CreateSolution(c)
 
 -----------------------------------------------------------------------------
 (***************************************************************************)
@@ -353,7 +359,7 @@ CreateSolutionFrom(c) ==
                   ncomp |-> Cardinality(Support(ves[c.src].w[1].c)),
                   res |-> IF ok THEN "ok" ELSE "ValueError", cls |-> cls]
 
-FromAny == \E i \in DOMAIN FromCases : InShard(i) /\ LET c == FromCases[i] IN IsC(c.src) /\ c.src # c.n /\ (c.solvent \in Names => (IsC(c.solvent) /\ c.solvent \notin {c.src, c.n}))
+FromAny == \E c \in FromCases : InShard(RatNum(c.fx) + RatNum(c.y) + Len(c.nu) + 2 * Len(c.du) + 3 * Len(c.tu) + Len(c.src)) /\ IsC(c.src) /\ c.src # c.n /\ (c.solvent \in Names => (IsC(c.solvent) /\ c.solvent \notin {c.src, c.n}))
                                /\ CreateSolutionFrom(c)
 
 -----------------------------------------------------------------------------
